@@ -3,6 +3,7 @@
 mod afio;
 mod obs;
 mod dynamic;
+mod ext;
 mod sat;
 mod stat;
 mod store;
@@ -17,9 +18,12 @@ fn main() {
     let a = util::Args::parse(&argv[2..]);
     match argv[1].as_str() {
         "static" => stat::cmd_static(&a),
+        "seq" => stat::cmd_seq(&a),
         "store" => store::cmd_store(&a),
         "dynamic" => dynamic::cmd_dynamic(&a),
         "sat" => sat::cmd_sat(&a),
+        "ext" => ext::cmd_ext(&a),
+        "extone" => ext::cmd_extone(&a),
         c => {
             eprintln!("unknown command {}", c);
             std::process::exit(2);
